@@ -74,6 +74,7 @@ def run(tier, seed):
             if "error" in rn:
                 raise common.Inconclusive("real-node layer: %s" % rn["error"][:500])
         _absorb_real_node(out, rn)
+        mass_expiry_part(out, wd, seed)
         if tier == "thorough":
             try:
                 cluster_layer(out, wd, seed)
@@ -88,6 +89,133 @@ def run(tier, seed):
         return out.finish()
     finally:
         shutil.rmtree(wd, ignore_errors=True)
+
+
+def _mass_register(port, svc, lo, hi):
+    """registrations lo..hi-1 of one service over 8 keep-alive connections (runs in its own process)"""
+    import http.client
+    import urllib.parse
+
+    def th(a, b):
+        c = http.client.HTTPConnection("127.0.0.1", port, timeout=15)
+        for i in range(a, b):
+            body = urllib.parse.urlencode({"serviceName": svc, "ip": "10.%d.%d.%d" % (50 + i // 65536, (i // 256) % 256, i % 256), "port": "80", "ephemeral": "true"})
+            c.request("POST", "/nacos/v1/ns/instance", body, {"Content-Type": "application/x-www-form-urlencoded"})
+            c.getresponse().read()
+    n = 8
+    step = (hi - lo + n - 1) // n
+    ts = [threading.Thread(target=th, args=(lo + k * step, min(hi, lo + (k + 1) * step))) for k in range(n)]
+    [t.start() for t in ts]
+    [t.join() for t in ts]
+
+
+def mass_expiry_part(out, wd, seed):
+    """many instances per service: more instances than one 2 s check round handles (budget 10 000) fall silent together. The owner
+    works them off over several rounds; whatever it expires must also disappear on every other node (bounded)."""
+    import multiprocessing
+    N = 10400
+    H, T = 3, 5
+    env = {"RNACOS_NAMING_HEALTH_TIMEOUT_SECOND": str(H), "RNACOS_NAMING_INSTANCE_TIMEOUT_SECOND": str(T), "RNACOS_HTTP_WORKERS": "6",
+           "RNACOS_NAMING_PERPETUAL_INSTANCE_PROBE_INTERVAL_SECOND": "5"}     # TCP probe of persistent instances every 5 s (smallest accepted value)
+    cl = procrig.Cluster(os.path.join(wd, "mass"), 3, env=env)
+    info = {"instances": N, "H_s": H, "T_s": T}
+    try:
+        cl.start()
+        names = ["c13m-%d-%d" % (seed, i) for i in range(12)]
+        hv = _hashes(names)
+        svc = names[0]
+        owner = cl.nodes[hv[svc] % 3]
+        others = [n for n in cl.nodes if n is not owner]
+        info["owner"] = owner.id
+        # persistent instances: one whose host answers the TCP probe (this node's own HTTP port) and one whose host is down (closed
+        # port); the heartbeat clock must never remove either, however often the probe fails
+        psvc = names[1]
+        dead_port = procrig.free_ports(1)[0]
+        t_pers = time.time()
+        pers = {("127.0.0.1", cl.nodes[0].http_port): "host-up", ("127.0.0.1", dead_port): "host-down"}
+        for (pip, pport) in pers:
+            if not _register(cl.nodes[0], psvc, pip, pport, ephemeral=False):
+                raise common.Inconclusive("persistent registration refused")
+        ctx = multiprocessing.get_context("fork")
+        t0 = time.time()
+        P = 6
+        ps = [ctx.Process(target=_mass_register, args=(owner.http_port, svc, k * N // P, (k + 1) * N // P)) for k in range(P)]
+        [p.start() for p in ps]
+        [p.join(60) for p in ps]
+        t_reg = time.time()
+        info["registration_s"] = round(t_reg - t0, 2)
+        if any(p.is_alive() for p in ps) or t_reg - t0 > H - 1.0:
+            for p in ps:
+                if p.is_alive():
+                    p.kill()
+            raise common.Inconclusive("mass registration too slow for the scenario (%.1f s)" % (t_reg - t0))
+        # the copies must have reached the other nodes while the instances were alive
+        seen = {}
+        end = t0 + H + 1.5
+        while time.time() < end and len(seen) < len(others):
+            for n in others:
+                l = _list(n, svc)
+                if l is not None and len(l) >= N and n.id not in seen:
+                    seen[n.id] = round(time.time() - t0, 2)
+            time.sleep(0.2)
+        info["copies_complete_on_other_nodes_after_s"] = seen
+        if len(seen) < len(others):
+            info["status"] = "inconclusive: the other nodes did not hold all copies before the first time-out"
+            out.extra["mass_expiry"] = info
+            return
+        # budget: ceil(N / 10000) rounds for the unhealthy marks and the same for the removals, each 2 s, plus sync and slack
+        bound = T + 2.0 * 2 * 2 + 2.0 + 3.0
+        deadline = t_reg + bound
+        left = {}
+        while True:
+            left = {}
+            for n in cl.nodes:
+                l = _list(n, svc)
+                left[n.id] = None if l is None else len(l)
+            if all(v == 0 for v in left.values()) or time.time() > deadline:
+                break
+            time.sleep(0.5)
+        info["gone_everywhere_after_s"] = round(time.time() - t_reg, 1)
+        info["left_per_node"] = left
+        info["bound_s"] = bound
+        out.evaluations += N
+        if any(v is None for v in left.values()):
+            info["status"] = "inconclusive: a node did not answer"
+        elif any(v for v in left.values()):
+            stuck = {str(k): v for k, v in left.items() if v}
+            where = "owner" if left[owner.id] else "non-owner-nodes"
+            out.violation("mass-expiry/instances-left-on-%s" % where,
+                          {"service": svc, "instances_registered": N, "owner_node": owner.id, "left_per_node": stuck, "waited_s": round(time.time() - t_reg, 1), "bound_s": bound,
+                           "H_s": H, "T_s": T, "note": "more instances than the per-round budget (10000) fell silent together"})
+        else:
+            out.shape("mass-expiry/%d-instances/gone-on-all-nodes" % N)
+            info["status"] = "held"
+        # ---- the persistent instances, at least 3 probe periods + T after their registration
+        time.sleep(max(0.0, t_pers + 3 * 5 + T + 2.5 - time.time()))
+        pinfo = {}
+        for n in cl.nodes:
+            l = _list(n, psvc)
+            pinfo[n.id] = None if l is None else {"%s:%d" % k: v for k, v in l.items()}
+            if l is None:
+                continue
+            for k, what in pers.items():
+                out.evaluations += 1
+                if k not in l:
+                    out.violation("persistent-instance-removed/%s" % what, {"service": psvc, "instance": "%s:%d" % k, "node": n.id, "age_s": round(time.time() - t_pers, 1),
+                                                                           "probe_interval_s": 5, "T_s": T, "listed": pinfo[n.id]})
+                else:
+                    out.shape("persistent/%s/%s/kept" % (what, "healthy" if l[k] else "unhealthy"))
+        info["persistent_instances_after_s"] = round(time.time() - t_pers, 1)
+        info["persistent_listing_per_node"] = pinfo
+        out.extra["mass_expiry"] = info
+    except common.Inconclusive as e:
+        info["status"] = "inconclusive: %s" % str(e)[:300]
+        out.extra["mass_expiry"] = info
+    except OSError as e:
+        info["status"] = "inconclusive: %r" % e
+        out.extra["mass_expiry"] = info
+    finally:
+        cl.kill_all()
 
 
 # --------------------------------------------------------------------------------------------------- one real node, HTTP only
